@@ -322,9 +322,13 @@ def _coupled(t, hook):
     for i in range(n):
         sizes[f"y{i}"] = t.randint(1, 2, f"size_y{i}")
     discs = []
+    shared = t.flag(0.4, "output_computed_by_two_disciplines")
+    if shared:
+        sizes["s"] = 2  # a non-coupling output computed by two disciplines: the last one in the list wins
     for i in range(n):
         ins = ["x"] + [f"y{j}" for j in range(n) if j != i and (n == 2 or t.flag(0.7, f"dep[{i}][{j}]") or j == (i + 1) % n)]
-        d = HDisc(f"D{i}", ins, [f"y{i}"], sizes, salt=i, hook=hook)
+        outs = [f"y{i}"] + (["s"] if shared and i in (0, n - 1) else [])
+        d = HDisc(f"D{i}", ins, outs, sizes, salt=i, hook=hook)
         # contraction: scale the coupling blocks
         for (o, inp), a in list(d._coef.items()):
             if inp != "x":
